@@ -35,7 +35,7 @@ def run_check(prop: str, tier: str, seed: int) -> int:
     # that what is skipped when the budget expires is the tail of the largest grammars (reported in the evidence)
     budget = None
     if tier == "thorough":
-        budget = float(os.environ.get("VERIF_BUDGET_S", "1500"))
+        budget = float(os.environ.get("VERIF_BUDGET_S", "1200"))
 
         def size(u):
             sp = u.get("spec") if isinstance(u, dict) else None
